@@ -164,6 +164,14 @@ def gradient(r, gid, bbox, pal=None, spread=True, allow_focal=True):
                 return f'<linearGradient id="{gid}" x1="{c[0]*100:.1f}%" y1="{c[1]*100:.1f}%" x2="{c[2]*100:.1f}%" y2="{c[3]*100:.1f}%"{gt}{sm}>{stops}</linearGradient>', "linear"
         else:
             c = (x + r.uniform(0, 0.4) * w, y + r.uniform(0, 0.4) * h, x + r.uniform(0.6, 1) * w, y + r.uniform(0.6, 1) * h)
+            if not gt and r.random() < 0.2:
+                # an end point with a coordinate of exactly 0 (an attribute whose value equals *some* default)
+                c = list(c)
+                k_ = r.randrange(4)
+                c[k_] = 0.0
+                if r.random() < 0.4:
+                    c[(k_ + 2) % 4] = 0.0  # e.g. x1 = x2 = 0: a vertical ramp on the left edge
+                c = tuple(c)
         return f'<linearGradient id="{gid}" gradientUnits="{units}" x1="{f3(c[0])}" y1="{f3(c[1])}" x2="{f3(c[2])}" y2="{f3(c[3])}"{gt}{sm}>{stops}</linearGradient>', "linear"
     if units == "objectBoundingBox":
         cx, cy, rr = r.uniform(0.3, 0.7), r.uniform(0.3, 0.7), r.uniform(0.3, 0.7)
